@@ -23,4 +23,5 @@ def obligations(tier):
             obls.append(api_step(2, it, ot, kind, 2))
     obls += dft_set(tier)      # the DFT stage: block bookkeeping and phase carry of the real dft_stage_fn
     obls += planenv.obls(tier)      # ENV-(b): plans of the real _soxr_init inside the envelope the kernel obligations assume (enumeration, labelled)
+    obls += fifo_obls()      # fifo.h: reserve / compaction / growth / read / trim
     return obls
